@@ -13,7 +13,7 @@ Extraction "model.ml"
   run_requests run_requests_line run_requests_gpsd new_srv base_registry
   tty_transmit tty_recover gpsd_transmit hexlify
   render_frame render_cfg
-  scan scan_backend parse_chunks ginit
+  scan scan_backend parse_chunks ginit enable_loop cmd_header
   enable_gnss disable_gnss gps_glonass gps_galileo_beidou set_rate_in_hz cfg_save cfg_reset
   warm_start cold_start rst_start rst_stop esfla_set lever_arm set_datetime sos_backup sos_clear
   pack_item_cfg unpack_item_cfg from_key valset_payload valget_poll_payload valget_decode valget_reencode.
